@@ -139,6 +139,13 @@ func (t *Tokenizer) Start() *Tokenizer {
 	return t
 }
 
+// Stop terminates the tokenizer goroutine by consuming the remaining tokens.
+// It needs to be called if the tokens are not read up to the end of the input.
+func (t *Tokenizer) Stop() {
+	for range t.tok {
+	}
+}
+
 func (t *Tokenizer) Peek() Token {
 	return t.forward(1)
 }
